@@ -688,4 +688,76 @@ def r18_11(ctx):
     return out
 
 
-RULES = [r18_1, r18_2, r18_3, r18_4, r18_5, r18_6, r18_7, r18_8, r18_9, r18_10, r18_11]
+def r18_12(ctx):
+    """S, cross-check of sibling iterations.  A Newton step x <- x - f(x) / f'(x) on a polynomial of degree d in exact
+    rational arithmetic multiplies the number of digits of x by about d at every step: ten steps on a cubic segment
+    (d = 5) give iterates of millions of digits, and the call does not return in any reasonable time.  The search for
+    crossings (Intersection.bezier_and_bezier) rounds its iterates with limit_denominator; every other iteration of the
+    same shape must bound its iterates as well (limit_denominator / float / round inside the loop)."""
+    out = Outcome("R18.12", "every Newton-type iteration on parameters that may be exact rationals keeps its iterates of "
+                            "bounded size (rounded inside the loop), so that `point in segment`, `==` and the operators "
+                            "return for integer / Fraction control points of curved segments too", floor=2)
+    def newton_updates(node):
+        """statements  v = u - a / b  /  u -= a / b  /  return u - a / b  under `node`"""
+        found = []
+        for st in ast.walk(node):
+            val = None
+            if isinstance(st, (ast.Assign, ast.Return)) and isinstance(st.value, ast.BinOp) and isinstance(st.value.op, ast.Sub):
+                val = st.value.right
+            elif isinstance(st, ast.AugAssign) and isinstance(st.op, ast.Sub):
+                val = st.value
+            if val is not None and isinstance(val, ast.BinOp) and isinstance(val.op, ast.Div) \
+                    and not isinstance(val.right, ast.Constant):
+                found.append(st)
+        return found
+
+    def roundings(node):
+        return [c for c in ast.walk(node) if isinstance(c, ast.Call) and (
+            (isinstance(c.func, ast.Attribute) and c.func.attr in ("limit_denominator",))
+            or (isinstance(c.func, ast.Name) and c.func.id in ("float", "round"))
+            or (isinstance(c.func, ast.Attribute) and U(c.func) in ("np.float64", "np.round", "np.around")))]
+
+    def helpers_called(fn, node):
+        """private helpers of the module called under `node` (a Newton step / a rounding step extracted into a function)"""
+        inf = ctx.typer.of(fn)
+        out_ = []
+        for c in ast.walk(node):
+            if isinstance(c, ast.Call):
+                for t in inf.targets(c, ("call",)):
+                    if t.mod == "curve" and t.name.startswith("_") and not t.name.endswith("__") and t.qname != fn.qname:
+                        out_.append(t)
+        return out_
+    n = 0
+    for q, fn in sorted(ctx.model.funcs.items()):
+        if fn.mod != "curve":
+            continue
+        loops = [x for x in ast.walk(fn.node) if isinstance(x, (ast.For, ast.While))]
+        for loop in loops:
+            if any(l is not loop and any(x is loop for x in ast.walk(l)) for l in loops):
+                continue                      # judged once, on the outermost loop
+            helpers = helpers_called(fn, loop)
+            updates = newton_updates(loop) + [u for h in helpers for u in newton_updates(h.node)]
+            if not updates:
+                continue
+            evaluates = any(isinstance(c, ast.Call) and (
+                (isinstance(c.func, ast.Name) and ("curve" in c.func.id.lower()))
+                or (isinstance(c.func, ast.Attribute) and c.func.attr in ("eval", "__call__")))
+                for scope in [loop] + [h.node for h in helpers] for c in ast.walk(scope))
+            if not evaluates:
+                continue
+            n += 1
+            bounded = roundings(loop) + [r for h in helpers for r in roundings(h.node)]
+            if bounded:
+                out.ok(q, f"Newton-type loop: iterates rounded by `{U(bounded[0])[:40]}`", where=fn.where(loop))
+            else:
+                out.bad(q, "a Newton-type iteration on possibly exact parameters never rounds its iterates: their size "
+                           "multiplies at every step and the call does not return for curved segments with integer or "
+                           "Fraction control points", where=fn.where(loop),
+                        detail=f"`{U(updates[0])[:70]}` in a loop that evaluates the curve at the updated parameter; the "
+                               f"sibling search for crossings rounds with limit_denominator")
+    if n == 0:
+        out.note("no Newton-type loop found in curve.py")
+    return out
+
+
+RULES = [r18_1, r18_2, r18_3, r18_4, r18_5, r18_6, r18_7, r18_8, r18_9, r18_10, r18_11, r18_12]
